@@ -33,6 +33,14 @@ REGISTRY['C05'] = {
     'design_ref': 'DESIGN.md section 5 / C05',
     'not_covered': ['AspaDefinitions::process_updates (iterator chains; outside V, K gave no verdict)', 'repository untouched on refusal (follows from no event, A8)'],
 }
+REGISTRY['C09'] = {
+    'v': ['c09_taskqueue', 'c09_scheduler'],
+    'k': [],
+    'level_text': 'Against a ghost model of the (trusted) queue: a restart leaves no task in the running state and re-queues every task that was running, for any number of running tasks (unbounded loop invariant). The publish path schedules the RRDP update (unit c12_rfc8181). Queue internals, crash points and the scheduler loop are not decided.',
+    'level_note': 'commons::queue::Queue is specified by assumed contracts (running/pending sets), not verified; R7 (&self -> &mut self) lets the ghost model change.',
+    'design_ref': 'DESIGN.md section 5 / C09',
+    'not_covered': ['Queue internals (closures over a key-value transaction): earliest-first claim order, keeps-the-earlier-time rule', 'crash while a task is running', 'scheduler::queue_start_tasks'],
+}
 REGISTRY['C10'] = {
     'v': ['c10_current', 'c10_staged', 'c10_content'],
     'k': [],
